@@ -22,6 +22,7 @@ func init() {
 			{ID: "C15.R4", Floor: 8, Doc: "consumers funnel through Scan; page switch re-enters the same logic; position advanced once per delivered row", Run: c15r4},
 			{ID: "C15.R5", Floor: 1, Doc: "a consumer that drains the iterator with Scan reports success only after finding iter.err nil once the loop has ended", Run: c15r5},
 			{ID: "C15.R6", Floor: 3, Doc: "only the page-switching code reads the position within the page: consumers never conclude 'no more rows' from pos / numRows themselves", Run: c15r6},
+			{ID: "C15.R9", Floor: 1, Doc: "a context that a function cancels by a deferred call is not attached to a query or a struct field in that function (the next-page copy of the query would inherit a dead context)", Run: ctxOutlivesCancel},
 			{ID: "C15.R8", Floor: 1, Doc: "after the scanner moved to the next page nothing is read through a copy of the old page's iterator (=C04.R12)", Run: c04r12},
 			{ID: "C15.R7", Floor: 1, Doc: "loops that drain an iterator are bounded by Scan alone, never by the row count of the current page", Run: c15r7},
 		},
